@@ -1,0 +1,62 @@
+/* verification hooks: compiled to nothing unless ASSEMBLYLINE_VERIF is defined.
+ * With the guard on, each macro calls a function pointer that is NULL unless a
+ * test harness installs it, so the library behaves identically either way. */
+#ifndef VERIF_HOOKS_H
+#define VERIF_HOOKS_H
+#ifdef ASSEMBLYLINE_VERIF
+struct al_verif_hooks {
+  // kind 0: instruction written, kind 1: nop padding written
+  void (*emit)(const void *al, unsigned pos, unsigned len, int cap, int kind);
+  // internal buffer resized
+  void (*grow)(const void *al, int old_len, int new_len, int moved);
+  // access to a shared index table (called before the access)
+  void (*tbl)(int is_store, int tbl, int idx, int val);
+  // result of the line filter: kept characters and return value
+  void (*filtered)(const char *in, const char *out, int j, int ret);
+  // write cursor of a fixed-capacity buffer (called before the write)
+  void (*idx)(int site, int idx, int cap);
+};
+extern struct al_verif_hooks al_verif;
+#define AL_VERIF_EMIT(al, pos, len, cap, kind)                                 \
+  do {                                                                         \
+    if (al_verif.emit)                                                         \
+      al_verif.emit((al), (pos), (len), (cap), (kind));                        \
+  } while (0)
+#define AL_VERIF_GROW(al, o, n, m)                                             \
+  do {                                                                         \
+    if (al_verif.grow)                                                         \
+      al_verif.grow((al), (o), (n), (m));                                      \
+  } while (0)
+#define AL_VERIF_TBL(s, t, i, v)                                               \
+  do {                                                                         \
+    if (al_verif.tbl)                                                          \
+      al_verif.tbl((s), (t), (i), (v));                                        \
+  } while (0)
+#define AL_VERIF_FILTERED(in, out, j, r)                                       \
+  do {                                                                         \
+    if (al_verif.filtered)                                                     \
+      al_verif.filtered((in), (out), (j), (r));                                \
+  } while (0)
+#define AL_VERIF_IDX(site, i, cap)                                             \
+  do {                                                                         \
+    if (al_verif.idx)                                                          \
+      al_verif.idx((site), (i), (cap));                                        \
+  } while (0)
+#else
+#define AL_VERIF_EMIT(al, pos, len, cap, kind)                                 \
+  do {                                                                         \
+  } while (0)
+#define AL_VERIF_GROW(al, o, n, m)                                             \
+  do {                                                                         \
+  } while (0)
+#define AL_VERIF_TBL(s, t, i, v)                                               \
+  do {                                                                         \
+  } while (0)
+#define AL_VERIF_FILTERED(in, out, j, r)                                       \
+  do {                                                                         \
+  } while (0)
+#define AL_VERIF_IDX(site, i, cap)                                             \
+  do {                                                                         \
+  } while (0)
+#endif
+#endif
